@@ -65,6 +65,11 @@ WaitIvs(sc, c) == (IF c.data THEN {ConnIv(sc, c)} ELSE {})
 
 HasSubsteps(sc) == \E s \in Sids(sc) : DepthOf(sc, s) > 1
 
+\* Optional switches (used by exhaustive configs of MosaikSched to shrink the state space):
+\* without the data history the C03 oracle is not evaluated, without the cause history C07 is not.
+DataOn(sc)  == IF "datahist"  \in DOMAIN sc THEN sc.datahist  ELSE TRUE
+CauseOn(sc) == IF "causehist" \in DOMAIN sc THEN sc.causehist ELSE TRUE
+
 ----------------------------------------------------------------------------
 (* History.                                                                *)
 
@@ -206,14 +211,14 @@ RefSB(sc, h, ev) ==
   LET tau == TMin(D)
       cs  == StepCauses(h, s, tau)
       inp == ev.inp
-      c03 == C03ok(sc, h, s, tau, inp)
+      c03 == ~DataOn(sc) \/ C03ok(sc, h, s, tau, inp)
       v == Cond(C01cons(sc, h, s, tau), "C01_consumer_began_before_producer_finished", <<s, tau, h.infl>>)
         \o Cond(C01prod(sc, h, s, tau), "C01_producer_stepped_in_consumers_past", <<s, tau, h.lastd>>)
         \o (IF c03 THEN NoV
             ELSE IF HasSubsteps(sc) /\ C03okI(sc, h, s, tau, inp)
               THEN Viol("C03_inputs__sig_integer_time_data_plane", <<s, tau>>)
               ELSE Viol("C03_inputs", <<s, tau, inp, [i \in InConns(sc, s) |-> Expect(sc, h, i, tau)], SetdFor(h, s)>>))
-        \o Cond(C07ok(sc, h, s, t, ev.m, cs), "C07_max_advance", <<s, t, ev.m, h.prom[s], cs>>)
+        \o Cond(~CauseOn(sc) \/ C07ok(sc, h, s, t, ev.m, cs), "C07_max_advance", <<s, t, ev.m, h.prom[s], cs>>)
         \o Cond(C16order(sc, h, s, tau), "C16_async_order", <<s, tau, h.infl>>)
         \o Cond(C10ok(sc, h, s, tau), "C10_lazy", <<s, tau, h.dem, h.infl>>)
         \o Cond(~OverLoop(sc, tau), "C09_substep_beyond_bound_executed", <<s, tau>>)
@@ -223,11 +228,11 @@ RefSB(sc, h, ev) ==
                       !.nd[s] = @ + 1,
                       !.lastd[s] = tau,
                       !.infl[s] = tau,
-                      !.scz[s] = cs,
+                      !.scz[s] = IF CauseOn(sc) THEN cs ELSE @,
                       !.cz[s] = {p \in @ : p[1] # tau},
-                      !.prom[s] = Append(@, [t |-> t, m |-> ev.m]),
-                      !.deliv = @ \cup UNION {{<<i, pi>> : pi \in EvCands(sc, h, i, tau)} : i \in evIn},
-                      !.delivI = @ \cup UNION {{<<i, pi>> : pi \in EvCandsI(sc, h, i, tau)} : i \in evIn},
+                      !.prom[s] = IF CauseOn(sc) THEN Append(@, [t |-> t, m |-> ev.m]) ELSE @,
+                      !.deliv = IF DataOn(sc) THEN @ \cup UNION {{<<i, pi>> : pi \in EvCands(sc, h, i, tau)} : i \in evIn} ELSE @,
+                      !.delivI = IF DataOn(sc) THEN @ \cup UNION {{<<i, pi>> : pi \in EvCandsI(sc, h, i, tau)} : i \in evIn} ELSE @,
                       !.setd = @ \ SetdFor(h, s)],
       v |-> v]
 
@@ -240,7 +245,7 @@ RefSE(sc, h, ev) ==
       sched == ~malformed /\ ev.nk = "int" /\ ev.n < sc.until
       me == {<<s, h.nd[s]>>} \cup h.scz[s]
   IN [h |-> [h EXCEPT !.dem[s] = IF sched THEN @ \cup {Flat(sc, s, ev.n)} ELSE @,
-                      !.cz[s]  = IF sched THEN @ \cup {<<Flat(sc, s, ev.n), c>> : c \in me} ELSE @,
+                      !.cz[s]  = IF sched /\ CauseOn(sc) THEN @ \cup {<<Flat(sc, s, ev.n), c>> : c \in me} ELSE @,
                       !.infl[s] = IF ev.nodata THEN None ELSE @,
                       !.mal = IF malformed /\ h.mal = None THEN <<s, "next_step">> ELSE @],
       v |-> NoV]
@@ -266,9 +271,9 @@ RefDE(sc, h, ev) ==
                  h.lastd[x] # None /\ TLeq(d, h.lastd[x]) /\ d \notin h.dem[x]
       me == {<<s, h.nd[s]>>} \cup h.scz[s]
   IN [h |-> [h EXCEPT !.dem = [x \in Sids(sc) |-> h.dem[x] \cup newd[x]],
-                      !.cz = [x \in Sids(sc) |-> h.cz[x] \cup {<<d, c>> : d \in newd[x], c \in me}],
+                      !.cz = IF CauseOn(sc) THEN [x \in Sids(sc) |-> h.cz[x] \cup {<<d, c>> : d \in newd[x], c \in me}] ELSE @,
                       !.infl[s] = None,
-                      !.prod[s] = Append(@, [ot |-> ot, vals |-> ev.vals])],
+                      !.prod[s] = IF DataOn(sc) THEN Append(@, [ot |-> ot, vals |-> ev.vals]) ELSE @],
       v |-> Cond(~late, "C01_trigger_delivered_into_the_past", <<s, ot, newd, h.lastd>>)]
 
 \* call-backs of a simulator into mosaik during its step
